@@ -159,7 +159,7 @@ Lemma space_enc_no47 enc r : enc <> [] -> Utf8.decode enc = (r, length enc) -> u
 Proof.
   intros Hne Hd Hsp. destruct (decode_bytes _ _ _ Hne Hd) as [(Hlt & E)|Hh]; rewrite firstn_all in *.
   - rewrite E. constructor; [|constructor]. intros ->. vm_compute in Hsp. discriminate.
-  - eapply Forall_impl; [|exact Hh]. intros b Hb. lia.
+  - eapply Forall_impl; [|exact Hh]. intros b Hb. cbn beta in *. lia.
 Qed.
 
 Lemma last_space_width_0 b rs : last_space_width (b :: rs) = O -> okb b.
@@ -215,11 +215,11 @@ Proof.
   intros (Hss & Hlf). apply has_prefix_true in Hss as (body & ->). cbn [app] in *.
   assert (Htl : forall body0, trim_left (length (47 :: 47 :: body0)) (47 :: 47 :: body0) = 47 :: 47 :: body0).
   { intros body0. cbn [length trim_left]. rewrite decode_ascii_head by lia. reflexivity. }
-  assert (Hts : forall body0 y tl, trim_right_rev (length (47 :: 47 :: body0)) (rev (47 :: 47 :: body0)) = rev (47 :: 47 :: y) ->
+  assert (Hts : forall body0 y, trim_right_rev (length (47 :: 47 :: body0)) (rev (47 :: 47 :: body0)) = rev (47 :: 47 :: y) ->
              trim_space (47 :: 47 :: body0) = 47 :: 47 :: y).
-  { intros body0 y tl E. unfold trim_space. rewrite Htl, frev_rev, E, frev_rev, rev_involutive. reflexivity. }
+  { intros body0 y E. unfold trim_space. cbv zeta. rewrite !Htl. rewrite !frev_rev. rewrite E, rev_involutive. reflexivity. }
   destruct (trim_right_comment (length (47 :: 47 :: body)) body ltac:(cbn; lia)) as (y & tl & E1 & E2 & E3).
-  rewrite (Hts body y tl E1).
+  rewrite (Hts body y E1).
   split.
   { split; [apply hp_ss|]. rewrite E2 in Hlf. rewrite !count_lf_cons in *. rewrite count_lf_app in Hlf.
     pose proof (count_lf_nonneg y). pose proof (count_lf_nonneg tl). cbn in *. lia. }
@@ -228,7 +228,7 @@ Proof.
     exists pre, b. split; [exact Epb|]. rewrite Epb, rev_app_distr in E3. cbn [rev app] in E3.
     apply last_space_width_0 in E3. unfold okb in E3. tauto. }
   split.
-  { apply (Hts y y []). cbn [length trim_right_rev]. rewrite E3. reflexivity. }
+  { apply (Hts y y). cbn [length trim_right_rev]. rewrite E3. reflexivity. }
   exists tl. rewrite E2. reflexivity.
 Qed.
 
